@@ -126,10 +126,10 @@ NOT_APPLICABLE = [
     {'property_id': 'C19', 'reason': 'status store is a cache written through storage under an RwLock from network paths; the only pure kernel is Vec::retain over URI values, nothing proof-level can be offered (DESIGN.md section 6)'},
 ]
 REGISTRY['C02'] = {
-    'v': ['c02_childcerts'],
+    'v': ['c02_childcerts', 'c02_issue', 'c02_rcvd'],
     'k': [],
-    'level_text': 'Per-operation contracts on the issuing side only: the per-class certificate store keeps one record per child key (issued XOR suspended) under every mutator, whatever the suspension history; shrink_overclaiming handles every over-claiming certificate (issued and suspended) by re-issuing exactly limit(intersection(new, old)) contained in the new certificate, or revoking when the intersection is empty, and touches nothing else (unbounded, all stores, loop invariants). Convergence and idempotence of parent-child synchronisation over histories are not decided.',
-    'level_note': 'ResourceSet algebra (contains/intersection/is_empty), RequestResourceLimit::apply_to and the signer are uninterpreted externals; HashMap key model assumed for KeyIdentifier.',
+    'level_text': 'Per-operation contracts on the issuing side only: (1) issue_cert/make_issued_cert issue limit(issuer-certificate ∩ entitlement), refuse anything outside the issuing certificate, and the signed certificate carries exactly the recorded set; (2) the per-class certificate store keeps one record per child key (issued XOR suspended) under every mutator, whatever the suspension history; (3) shrink_overclaiming handles every over-claiming certificate (issued and suspended) by re-issuing exactly limit(new ∩ old) inside the new certificate, or revoking when nothing is left, and touches nothing else; activate_key re-issues every certificate in its own category; (4) process_rcvd_cert_current puts that update in the same event set as CertificateReceived (unbounded, all stores, loop invariants). Convergence and idempotence of parent-child synchronisation over histories are not decided.',
+    'level_note': 'ResourceSet algebra (contains/intersection/is_empty/difference), RequestResourceLimit::apply_to, make_tbs_cert, CertInfo::create and the signer are assumed contracts on externals; HashMap key model assumed for KeyIdentifier; Config is a one-field stub in c02_rcvd.',
     'design_ref': 'DESIGN.md section 5 / C02',
-    'not_covered': ['wants_update / 10% rule, set_incoming_cert request clearing (keys.rs)', 'entitlement class computation (certauth.rs:986-1084)', 'sync driver (manager.rs), taproxy/tasigner issuance', 'convergence in a bounded number of syncs; idempotence of a further sync (history properties)'],
+    'not_covered': ['wants_update / 10% rule (f64 arithmetic, keys.rs)', 'entitlement class computation (certauth.rs:986-1084)', 'sync driver (manager.rs), taproxy/tasigner issuance', 'convergence in a bounded number of syncs; idempotence of a further sync (history properties)', 'publication of the ChildCertificatesUpdated event (covered per operation under C03/C04 units)'],
 }
